@@ -1,6 +1,7 @@
 """C11 — scheduling is total: terminates, reports, never crashes or hangs."""
 import copy
 import json
+import os
 import re
 
 from .. import astutil as A
@@ -129,7 +130,17 @@ def run(chk):
             found.append((f"C11: scheduling a grammatical project failed with {str(o)[:160]}", {"text": r["text"], "ast": r["ast"], "impl": o}))
     others = [(q, kind) for q, kind, ok in inf if not ok]
     texts = [render.render(q) for q, _ in others]
-    outs = chk.impl.run(["J " + json.dumps({"op": "sched", "text": t, "budget": budget_of(q)}) for (q, _), t in zip(others, texts)])
+    # witnesses of recorded findings that exist as text only run first
+    wtexts = []
+    for f in SC.load_known("C11"):
+        wp = os.path.join(SC.ROOT, f.get("witness", ""))
+        if os.path.exists(wp):
+            w = json.load(open(wp))
+            if w.get("text") and not w.get("ast"):
+                wtexts.append((None, "witness-" + f["id"], w["text"]))
+    others = [(None, k) for _, k, _ in wtexts] + others
+    texts = [t for _, _, t in wtexts] + texts
+    outs = chk.impl.run(["J " + json.dumps({"op": "sched", "text": t, "budget": budget_of(q) if q else 60}) for (q, _), t in zip(others, texts)])
     for (q, kind), t, o in zip(others, texts, outs):
         kinds[kind] = kinds.get(kind, 0) + 1
         if not o.startswith("J "):
@@ -145,7 +156,7 @@ def run(chk):
             for fid, x in sc["tasks"].items():
                 if x["leaf"] and x["scheduled"] and x["start"] is not None and x["end"] is not None and x["start"] > x["end"]:
                     user_pinned = False
-                    for f2, t2, _, _ in A.flat_tasks(q):
+                    for f2, t2, _, _ in (A.flat_tasks(q) if q else []):
                         if f2 == fid and t2.get("start") is not None and t2.get("end") is not None:
                             user_pinned = True
                     if not user_pinned:
